@@ -6577,6 +6577,23 @@ size_t ZSTD_compress2(ZSTD_CCtx* cctx,
     }
 }
 
+/* ZSTD_cdictReachableSize() :
+ * @returns the nb of bytes of @cdict that an offset may reach.
+ * cdict->dictContentSize is the size of the buffer the dictionary was built from :
+ * for a zstd-format dictionary this includes the entropy header, which is not part of the content. */
+static size_t ZSTD_cdictReachableSize(const ZSTD_CDict* cdict)
+{
+    int const zstdFormat = (cdict->dictContentType != ZSTD_dct_rawContent)
+                        && (cdict->dictContentSize >= 8)
+                        && (MEM_readLE32(cdict->dictContent) == ZSTD_MAGIC_DICTIONARY);
+    if (zstdFormat) {
+        /* what ZSTD_loadDictionaryContent() referenced */
+        ZSTD_window_t const* const window = &cdict->matchState.window;
+        return (size_t)(window->nextSrc - window->base) - window->dictLimit;
+    }
+    return cdict->dictContentSize;
+}
+
 /* ZSTD_validateSequence() :
  * @offCode : is presumed to follow format required by ZSTD_storeSeq()
  * @returns a ZSTD error code if sequence is not valid
@@ -6635,7 +6652,7 @@ ZSTD_copySequencesToSeqStoreExplicitBlockDelim(ZSTD_CCtx* cctx,
     DEBUGLOG(5, "ZSTD_copySequencesToSeqStoreExplicitBlockDelim (blockSize = %zu)", blockSize);
 
     if (cctx->cdict) {
-        dictSize = (U32)cctx->cdict->dictContentSize;
+        dictSize = (U32)ZSTD_cdictReachableSize(cctx->cdict);
     } else {
         /* a prefix is single-use : cctx->prefixDict is already cleared when the frame starts,
          * its size is what the frame start recorded */
@@ -6725,7 +6742,7 @@ ZSTD_copySequencesToSeqStoreNoBlockDelim(ZSTD_CCtx* cctx, ZSTD_sequencePosition*
     (void)externalRepSearch;
 
     if (cctx->cdict) {
-        dictSize = cctx->cdict->dictContentSize;
+        dictSize = ZSTD_cdictReachableSize(cctx->cdict);
     } else {
         /* a prefix is single-use : cctx->prefixDict is already cleared when the frame starts,
          * its size is what the frame start recorded */
